@@ -213,6 +213,11 @@ class StepModel(Core.Model):
         self.systems.add_system(Stop('stop', self))
 
 
+class HoursStepModel(StepModel):
+    """The same model with an attribute of its own called timestep (the length of a step, in hours)."""
+    timestep = 0.25
+
+
 def steps_score(model):
     return model.systems.timestep
 
@@ -225,7 +230,8 @@ def limit_case(case):
     if procs != 1:
         sched.install(Batching, (tuple(tuple(w) for w in oc[0]), tuple(oc[1])) if oc else None, sched.WorkerCache())
     try:
-        best, results = Batching.grid_search(StepModel, {'a': [1, 2, 3], 'life': life}, steps_score, processes=procs,
+        best, results = Batching.grid_search(HoursStepModel if case.get('dt') else StepModel, {'a': [1, 2, 3], 'life': life},
+                                             steps_score, processes=procs,
                                              max_timesteps=limit, repetitions=2, mode=ScoreMode.MAX_SUM)
     finally:
         if procs != 1:
@@ -353,6 +359,75 @@ def seeded_reps_case(case):
     return len(results) * reps
 
 
+class PercentGrid(dict):
+    """A grid kept as a dict subclass: stores percentages and hands out fractions, iterates its keys alphabetically.  What
+    it hands out through grid[key] for the keys it iterates over IS the grid."""
+
+    def __getitem__(self, key):
+        values = super().__getitem__(key)
+        return [v / 100 for v in values] if isinstance(values, list) else values
+
+    def __iter__(self):
+        return iter(sorted(super().keys()))
+
+
+class SortModel(Core.Model):
+    """Normalises the list it is given IN PLACE (sorts it) - as far as the library is concerned, the caller's business."""
+
+    def __init__(self, a=(), b=0):
+        super().__init__(seed=1)
+        ambient_logger(self)
+        a.sort()
+        self.first, self.b = a[0], b
+        self.complete()
+
+
+def first_score(model):
+    return 10 * model.first + model.b
+
+
+def mapping_case(case):
+    """(1) A grid handed over as a dict subclass gives the outcome of the equivalent plain dict.  (2) A model that changes
+    a list-valued parameter in place: whatever the reported parameters then show, they show the same for every process
+    count and schedule."""
+    reset_library()
+    procs, oc = case['procs'], case.get('outcome')
+
+    def search(cls, grid, score, **kw):
+        if procs != 1:
+            sched.install(Batching, (tuple(tuple(w) for w in oc[0]), tuple(oc[1])) if oc else None, sched.WorkerCache())
+        try:
+            return Batching.grid_search(cls, grid, score, processes=procs, **kw)
+        finally:
+            if procs != 1:
+                sched.uninstall(Batching)
+    if case['what'] == 'percent':
+        grid = PercentGrid()
+        grid['uptake'], grid['size'], grid['decay'] = [10, 50, 90], 2, [25, 75]
+        plain = {k: grid[k] for k in grid}
+        want = Batching.grid_search(KwModel, plain, kw_score, max_timesteps=3, repetitions=2, mode=ScoreMode(case['mode']))
+        got = search(KwModel, grid, kw_score, max_timesteps=3, repetitions=2, mode=ScoreMode(case['mode']))
+        what = 'a grid given as a dict subclass (converted values, alphabetical keys) against the equivalent plain dict'
+    else:
+        def grid():
+            return {'a': [[3, 1, 2], [9, 4], [5]], 'b': [1, 2]}
+        want = Batching.grid_search(SortModel, grid(), first_score, repetitions=2, mode=ScoreMode(case['mode']))
+        got = search(SortModel, grid(), first_score, repetitions=2, mode=ScoreMode(case['mode']))
+        what = 'a model that sorts its list-valued parameter in place: one process against the same search'
+    if got[1] != want[1] or got[1].index(got[0]) != want[1].index(want[0]) or \
+            [list(r) for r in got[1]] != [list(r) for r in want[1]]:
+        raise Violation(f'{what}, processes {procs}, schedule {oc}', expected=repr(want[1])[:500], observed=repr(got[1])[:500])
+    return len(got[1])
+
+
+def mapping_cases():
+    for what in ('percent', 'sorting'):
+        for mode in (0, 5):
+            yield {'leg': 'mapping', 'what': what, 'mode': mode, 'procs': 1}
+            for oc in [None] + [[list(map(list, o[0])), list(o[1])] for o in list(sched.outcomes(6, 2))[:4]]:
+                yield {'leg': 'mapping', 'what': what, 'mode': mode, 'procs': 2, 'outcome': oc}
+
+
 def traits_case(case):
     reset_library()
     procs, oc = case['procs'], case.get('outcome')
@@ -459,6 +534,8 @@ def start_method_case(case):
 def limit_cases():
     for limit, life in ((3, 100), (5, 2), (4, 3)):
         yield {'leg': 'limit', 'limit': limit, 'life': life, 'procs': 1}
+        yield {'leg': 'limit', 'limit': limit, 'life': life, 'procs': 1, 'dt': True}
+        yield {'leg': 'limit', 'limit': limit, 'life': life, 'procs': 2, 'dt': True, 'outcome': None}
         for oc in sched.outcomes(3, 2):
             yield {'leg': 'limit', 'limit': limit, 'life': life, 'procs': 2,
                    'outcome': [list(map(list, oc[0])), list(oc[1])]}
@@ -778,7 +855,7 @@ def chunk_fn(ctx, chunk):
     cache = sched.WorkerCache()
     serial_memo = {}
     for case in chunk:
-        if case['leg'] in ('limit', 'reused_list', 'traits', 'source_dict', 'start_method', 'same_name', 'seeded_reps'):
+        if case['leg'] in ('limit', 'reused_list', 'traits', 'source_dict', 'start_method', 'same_name', 'seeded_reps', 'mapping'):
             ctx.traces += 1
             ctx.states += 1
             ctx.transitions += 3
@@ -786,7 +863,7 @@ def chunk_fn(ctx, chunk):
                 ctx.outcome(hbfs._guard({'limit': limit_case, 'reused_list': reused_list_case,
                                          'traits': traits_case, 'source_dict': source_dict_case,
                                          'start_method': start_method_case, 'same_name': same_name_case,
-                                         'seeded_reps': seeded_reps_case}[case['leg']], case))
+                                         'seeded_reps': seeded_reps_case, 'mapping': mapping_case}[case['leg']], case))
             except Violation as v:
                 ctx.report(case, v)
             continue
@@ -835,6 +912,7 @@ def run(ctx):
     lim = list(limit_cases()) + [{'leg': 'reused_list', 'procs': 1}, {'leg': 'source_dict', 'procs': 1}] + list(traits_cases())
     lim += [{'leg': 'same_name', 'order': o} for o in ([1, 2], [2, 1], [1, 2, 1], [2, 2])]
     lim += [{'leg': 'seeded_reps', 'name': nm, 'reps': r} for nm in ('seed', 'a', 'both') for r in (2, 3)]
+    lim += list(mapping_cases())
     if not ctx.small:
         lim += [{'leg': 'start_method', 'method': 'spawn', 'limit': 3}, {'leg': 'start_method', 'method': 'forkserver', 'limit': 4}]
     first = [c for c in ser if c['leg'] == 'serial_typed_rows'] + [c for c in ser if c['leg'] == 'serial_mixed']
@@ -865,6 +943,9 @@ def replay(case):
         return
     if case['leg'] == 'seeded_reps':
         hbfs._guard(seeded_reps_case, case)
+        return
+    if case['leg'] == 'mapping':
+        hbfs._guard(mapping_case, case)
         return
     if case['leg'] == 'start_method':
         hbfs._guard(start_method_case, case)
